@@ -421,6 +421,72 @@ theorem dominates_imp_gt (xs ys : List α) (hlen : xs.length = ys.length)
 
 end DominanceOrder
 
+/-! ### Comparisons see only the order of the weighted values
+
+Every operator and `dominates` are invariant under a strictly increasing re-labelling of the weighted values.
+This is what lets the correspondence drive the (rational) model with an order-isomorphic image of weighted
+values that saturated at ±∞ in the implementation's doubles, and it is a law of the implementation's
+comparison in its own right (no operator looks at magnitudes). -/
+section MonotoneImage
+variable {α β : Type} [LinearOrder α] [LinearOrder β]
+
+/-- The image of a fitness under a re-labelling of its weighted values. -/
+def mapFit (f : α → β) (a : Fit α) : Fit β := ⟨a.wvalues.map f⟩
+
+theorem tupleLt_map (f : α → β) (hf : StrictMono f) (x y : List α) :
+    Py.tupleLt (x.map f) (y.map f) = Py.tupleLt x y := by
+  induction x generalizing y with
+  | nil => cases y <;> simp [Py.tupleLt]
+  | cons a as ih =>
+    cases y with
+    | nil => simp [Py.tupleLt]
+    | cons b bs =>
+      simp only [List.map_cons, Py.tupleLt, hf.injective.eq_iff, hf.lt_iff_lt, ih]
+
+theorem tupleLe_map (f : α → β) (hf : StrictMono f) (x y : List α) :
+    Py.tupleLe (x.map f) (y.map f) = Py.tupleLe x y := by
+  induction x generalizing y with
+  | nil => cases y <;> simp [Py.tupleLe]
+  | cons a as ih =>
+    cases y with
+    | nil => simp [Py.tupleLe]
+    | cons b bs =>
+      simp only [List.map_cons, Py.tupleLe, hf.injective.eq_iff, hf.le_iff_le, ih]
+
+theorem dominatesLoop_map (f : α → β) (hf : StrictMono f) (x y : List α) (ne : Bool) :
+    dominatesLoop (x.map f) (y.map f) ne = dominatesLoop x y ne := by
+  induction x generalizing y ne with
+  | nil => simp [dominatesLoop]
+  | cons a as ih =>
+    cases y with
+    | nil => simp [dominatesLoop]
+    | cons b bs =>
+      simp only [List.map_cons, dominatesLoop, hf.lt_iff_lt, ih]
+
+theorem slice_map {γ δ : Type} (f : γ → δ) (idx : List Nat) (l : List γ) :
+    Py.slice idx (l.map f) = (Py.slice idx l).map f := by
+  simp [Py.slice, List.map_filterMap, List.filterMap_congr]
+
+/-- All six operators and `dominates` (on every slice) give the same answers on a strictly increasing image
+of the weighted values. -/
+theorem compare_order_invariant (f : α → β) (hf : StrictMono f) (a b : Fit α) (idxA idxB : List Nat) :
+    lt (mapFit f a) (mapFit f b) = lt a b ∧ le (mapFit f a) (mapFit f b) = le a b ∧
+    gt (mapFit f a) (mapFit f b) = gt a b ∧ ge (mapFit f a) (mapFit f b) = ge a b ∧
+    eq (mapFit f a) (mapFit f b) = eq a b ∧ ne (mapFit f a) (mapFit f b) = ne a b ∧
+    dominates (mapFit f a) (mapFit f b) idxA idxB = dominates a b idxA idxB := by
+  have heq : eq (mapFit f a) (mapFit f b) = eq a b := by
+    simp only [eq, Py.tupleEq, mapFit]
+    exact decide_eq_decide.2 (List.map_injective_iff.2 hf.injective).eq_iff
+  refine ⟨tupleLt_map f hf _ _, tupleLe_map f hf _ _, ?_, ?_, heq, ?_, ?_⟩
+  · simp only [gt, le, mapFit, tupleLe_map f hf]
+  · simp only [ge, lt, mapFit, tupleLt_map f hf]
+  · simp only [ne, heq]
+  · simp only [dominates, mapFit, slice_map, dominatesLoop_map f hf]
+
+end MonotoneImage
+
+example : lt (mapFit (fun x : Int => 2 * x + 1) ⟨[3, -5]⟩) (mapFit (fun x : Int => 2 * x + 1) ⟨[3, -2]⟩) = true := by decide
+
 example : dominatesLoop ([3, -2] : List Int) [3, -5] false = true ∧ lt (⟨[3, -5]⟩ : Fit Int) ⟨[3, -2]⟩ = true := by decide
 
 /-! ### Non-vacuity: concrete instances of the hypotheses above -/
